@@ -10,6 +10,8 @@ Cfgs == {[style |-> s, omit |-> o] : s \in {"camel", "snake"}, o \in {"never", "
 
 (* two plain fields: full product of tags and value classes *)
 Two == {<< Field(1, t1, v1, "string"), Field(2, t2, v2, "number") >> : t1 \in Tags, t2 \in Tags \ {"name"}, v1 \in Vals, v2 \in {"zero", "full"}}
+(* a slice field that is nil ("zero"), empty but not nil, or full, under every tag *)
+TwoSlice == {<< Field(1, t1, v1, "slice"), Field(2, t2, v2, "slice") >> : t1 \in Tags, t2 \in {"none", "omit_zero", "omit_empty", "first"}, v1 \in Vals, v2 \in Vals}
 (* three fields, the order tags interacting; and an embedded struct with two fields in the middle *)
 Three == {<< Field(1, t1, "full", "number"), Field(2, t2, "full", "string"), Field(3, t3, "full", "slice") >> :
             t1 \in {"none", "first", "o0", "o1", "name"}, t2 \in {"none", "first", "o0", "o1", "omit"}, t3 \in {"none", "first", "o0", "o1"}}
@@ -24,7 +26,7 @@ Deep == {<< Field(1, t1, "full", "number"), [Field(3, "none", "full", "number") 
 Wide == {[i \in 1..14 |-> Field(5 + i, IF i = a THEN "o1" ELSE IF i = b THEN "first" ELSE "none", "full", "number")] :
            a \in {3, 9, 14}, b \in {1, 7, 12}}
 
-Cases == {[fields |-> fs, cfg |-> c] : fs \in Two \cup Three \cup Embedded \cup Deep \cup Wide, c \in Cfgs}
+Cases == {[fields |-> fs, cfg |-> c] : fs \in Two \cup TwoSlice \cup Three \cup Embedded \cup Deep \cup Wide, c \in Cfgs}
 
 Init == cs = [fields |-> <<>>, cfg |-> [style |-> "", omit |-> ""]]
 Next == cs.fields = <<>> /\ cs' \in Cases
